@@ -1,5 +1,10 @@
+\* quick: the three base profiles and every single-choice deviation (well-formed maps), datafile
+\* version 4; all corruptions of the DDNet base with the full value set, of the two other bases
+\* with the reduced one
 SPECIFICATION Spec
 CONSTANTS
   Versions <- V4
-  Pairs <- NoPairs
+  Variants = TRUE
+  SweepLevel = 1
+  Pairs = FALSE
 INVARIANT Emit
